@@ -60,7 +60,7 @@ def tlc_machine(cfg, workdir, simulate=None, seed=0, timeout=1500):
     log = os.path.join(workdir, f"machine_{cfg}.log")
     meta = os.path.join(workdir, f"meta_{cfg}")
     extra = []
-    workers = 8
+    workers = 14
     if simulate:
         extra = ["-simulate", f"num={simulate}", "-depth", "40", "-seed", str(seed + 1)]
         workers = 1
@@ -319,7 +319,7 @@ def driver_histories(scens, workdir, res, tag="drv"):
             else:
                 r.append(1)
             negs.append((j + 1, hh))
-    nshard = min(vlib.NCPU, 8)
+    nshard = min(vlib.NCPU, 16)
     shards = [[] for _ in range(nshard)]
     for k, item in enumerate([("real", sc, h) for sc, h in hists] + [("neg", j, h) for j, h in negs]):
         shards[k % nshard].append(item)
@@ -394,8 +394,19 @@ def main(tier, seed, replay, t0):
             runner.run_pipeline("C04", {binname: [scn]}, tier, seed, res, neg_every=10**9, workdir=workdir + "_replay")
         return runner.finish("C04", tier, seed, res, t0, "model_checking", RULE, vlib.DEFAULT_ASSUMPTIONS, evidence_name="C04_replay")
 
+    # the compile-and-run probes and the two simulations do not depend on anything else: they run beside the exhaustive exploration
+    from concurrent.futures import ThreadPoolExecutor
+    pool = ThreadPoolExecutor(max_workers=4)
+    nsim = 40 if quick else 400
+    fut_sim = pool.submit(tlc_machine, "MC_Machine_sim", workdir, nsim, seed)
+    fut_simf = pool.submit(tlc_machine, "MC_Machine_simfocus", workdir, nsim, seed + 17)
     # ---- (B1) exhaustive exploration of the machine, every transition replayed
-    recs, st = tlc_machine("MC_Machine_small" if quick else "MC_Machine_large", workdir)
+    try:
+        recs, st = tlc_machine("MC_Machine_small" if quick else "MC_Machine_large", workdir)
+    except BaseException:
+        pool.shutdown(wait=True, cancel_futures=True)
+        raise
+    fut_probes = pool.submit(lambda: (ctor_probes(workdir, quick), alt_config_probes(workdir, quick)))
     trans = [dict(r, g="t") for k, r in recs if k == "T"]
     sp, ep = os.path.join(workdir, "t_scen.ndjson"), os.path.join(workdir, "t_ev.ndjson")
     with open(sp, "w") as fh:
@@ -420,11 +431,10 @@ def main(tier, seed, replay, t0):
     extra["machine_exhaustive"] = {"tlc_states": st["distinct"], "transitions_replayed": len(trans), "mismatches": nbad,
                                    "per_action": per_op, "invariants": ["Canonical", "NativeOK", "TypeOK"]}
     # ---- (B2) simulated histories at real widths
-    nsim = 40 if quick else 400
-    recs, st2 = tlc_machine("MC_Machine_sim", workdir, simulate=nsim, seed=seed)
+    recs, st2 = fut_sim.result()
     # second batch restricted to the operations that can leave stale bits above BITS (sign fill, complement, rotation,
     # whole-limb shifts, products, narrowing conversions), at the non-aligned widths
-    recs2, st3 = tlc_machine("MC_Machine_simfocus", workdir, simulate=nsim, seed=seed + 17)
+    recs2, st3 = fut_simf.result()
     hists = [dict(r, g="h") for k, r in recs if k == "H"] + [dict(r, g="h") for k, r in recs2 if k == "H"]
     sp, ep = os.path.join(workdir, "h_scen.ndjson"), os.path.join(workdir, "h_ev.ndjson")
     with open(sp, "w") as fh:
@@ -463,8 +473,8 @@ def main(tier, seed, replay, t0):
                                  "direction": "implementation -> specification: ux_mach's own driver draws the operations, registers and "
                                               "immediates; spec/MachineTrace.tla checks every logged step against UintMachine!Apply"}
     # ---- (P) ill-formed types
-    probes = ctor_probes(workdir, quick)
-    alt = alt_config_probes(workdir, quick)
+    probes, alt = fut_probes.result()
+    pool.shutdown(wait=True)
     extra["alt_config_probes"] = {"configuration": "ruint built with the feature `rand` alone (the rand-0.8 inherent methods are cfg'd out "
                                                    "whenever rand-09 is enabled)", "events": len(alt), "widths": [b for b, _ in ALT_WIDTHS]}
     extra["ctor_probes"] = {"probes": len(probes),
